@@ -82,11 +82,11 @@ NOT_APPLICABLE = {
     'C16': 'exactly-once iteration is the contract of std HashMap / dashmap iterators (dependencies, assumed not verified) and of schedules; the only repository code on that path, the expiry filter of Iter::next / is_expired_entry, is decided under C05/C06',
 }
 
-_UNS = 'Proof level holds for the single-threaded cache (src/unsync/cache.rs, src/unsync/deques.rs). The concurrent cache mutates shared state through &self (atomics, Mutex, DashMap), which neither back end can frame: of it only leaf predicates, counter arithmetic, the lookup composition, (quiescent case) Inner::admit, Inner::handle_upsert, Inner::evict_lru_entries, both expiry scans and evict_expired, the bookkeeping steps handle_admit / handle_remove / handle_remove_with_deques with the tagged-pointer layer common/concurrent/deques.rs (unit sync_maint, shared entry state read as \'what this call reads\') are under contract; its maintenance is exercised by the bounded runtime stand-in rt_sync in sequential histories only, schedules are not covered. '
+_UNS = 'Proof level holds for the single-threaded cache (src/unsync/cache.rs, src/unsync/deques.rs). The concurrent cache mutates shared state through &self (atomics, Mutex, DashMap), which neither back end can frame: of it the following are under contract (122 functions): leaf predicates, counter arithmetic, the lookup composition, the public front end of sync/cache.rs (what each call hands on: the write record queued by an insert / invalidate), the constructor chain down to Inner::new, iteration (sync/iter.rs, sync/mapref.rs), new_value_entry(_from), the read-record and housekeeping hooks, apply_reads for arbitrary queue contents, apply_writes for one record per call, and for the quiescent state Inner::admit, Inner::handle_upsert, Inner::evict_lru_entries, both expiry scans and evict_expired, the bookkeeping steps handle_admit / handle_remove / handle_remove_with_deques with the tagged-pointer layer common/concurrent/deques.rs and the AccessTime functions of common/concurrent.rs (shared entry state read as \'what this call reads\'; writes through &self appear only as \'this value was stored\' facts; the sequential meaning of EntryInfo / AtomicInstant / Housekeeper is checked on the real code by Kani, complete for one thread); NOT under contract: Inner::sync itself, do_insert_with_hash, Inner::remove_entry, several records of one key in flight; its maintenance is exercised by the bounded runtime stand-in rt_sync in sequential histories only, schedules are not covered. '
 _ENV = 'Assumed contracts (trusted): std HashMap as a map view; common/deque.rs (raw pointers) as a sequence view, checked separately by complete single-operation Kani window harnesses and bounded sequences; unsync/deques.rs and the ValueEntry accessors are PROVED against that view in unit udeques, the cache unit uses their contracts; Instant/Duration arithmetic, std::cmp::min/max, a pure weigher, key identity through Hash/Eq/Borrow coherence, fewer than 2^32 entries, one named clock reading per operation.'
 
 CLAIMS = {
-    'C01': dict(technique='Verus contracts on the extracted unsync insert/get/contains_key/invalidate* functions + relational lemmas',
+    'C01': dict(technique='Verus contracts on the extracted unsync insert/get/contains_key/invalidate*/iteration functions + relational lemmas; sync lookup composition, front end and iteration',
                 text='every lookup answer is specified as a function of the map view (value of the resident binding, absent after invalidate*) and proved for all keys, hashers, weights, capacities and clock readings',
                 note=_UNS + _ENV + ' invalidate_entries_if: the removal phase (loop, unlinking, counters) is proved on the real text; its selection expression (an iterator-adapter chain Verus rejects) is replaced by an ASSUMED contract through a declared rewrite tied to the token hash of that expression, and is exercised by the bounded runtime stand-in only. Iteration: unsync Iter::next, Iter::new and Cache::iter are under contract (what next yields is a binding of the cache map, with its value, not expired at the reading taken for that item; `for .. in self.iter.by_ref()` written as loop/match by a declared rewrite) over an ASSUMED std hash_map::Iter (yields bindings of the map it was created from); the iterator of the concurrent cache (dashmap) is exercised by the bounded runtime stand-in only.'),
     'C03': dict(technique='Verus contracts: free-space branch of handle_insert, frame and precision clauses of the housekeeping functions (expiry scans purge only expired entries), weight invariant',
@@ -119,7 +119,7 @@ CLAIMS = {
     'C13': dict(technique='Verus: admit proved equivalent to the declarative spec_admit of the property statement',
                 text='Admitted <==> (shortest sufficient LRU prefix exists and candidate frequency > summed victim frequency); rejected inserts proved to touch no resident',
                 note=_UNS + _ENV + ' frequencies are read through the verified FrequencySketch::frequency contract.'),
-    'C14': dict(technique='Verus contracts on the verbatim FrequencySketch functions (bit-vector lemmas) + cache-level frame clauses',
+    'C14': dict(technique='Verus contracts on the verbatim FrequencySketch functions (bit-vector lemmas) + cache-level frame clauses; sync apply_reads counts every queued record exactly once',
                 text='every function of frequency_sketch.rs verified against nibble-level postconditions for all tables and hashes; get proved to record exactly once, every other operation never',
                 note='assumes std specs of count_ones/next_power_of_two/pow/into_boxed_slice; sketch table <= 2^27 words; ' + _ENV),
     'C17': dict(technique='Verus pass-through contracts on builders, Policy, with_everything and policy(); Kani complete proofs of the 1000-year guard (both directions) and of weigh',
